@@ -43,15 +43,26 @@ UNIT_TRUSTED["table_cmp"] = [
     "NOT under contract (note T): that Table::insert / restale* / update_nexthop_validity keep each destination's list sorted by this comparator and exclude filtered / next-hop-invalid entries; hashbrown-heavy mutators are outside both tools",
 ]
 
+UNIT_TRUSTED["packet_validate"] = [
+    "prelude p_packet: ParsedUpdate / ReachNlri / UnreachNlri / AttributeError / Message / Update mirrored transparently (Verus checks the mirror against the real definitions), Attribute / Family / Nexthop / PathNlri / Open / Notification opaque; Attribute::code uninterpreted; derive(PartialEq) on Family structural",
+    "Attribute::canonical_flags == spec_canonical: proved by the Kani harness c05_canonical_flags_table over all 256 codes (same check run)",
+    "R11 helper vx_chain_opts (Option::into_iter().chain(Option)), R12 helper vx_filter_collect (assumed std iterator semantics; predicate closures verified at the call site), R15 matches!-on-constants rewritten to == (u8 / derived PartialEq)",
+    "NOT covered: the parse side — that parse_message records every flag mismatch / decode failure / unknown well-known attribute in error_attrs with its code and resets the session only for unparsable NLRI (parse_message is not under contract yet)",
+]
+
 # minimum number of functions that must produce obligations / of must-fail twins that must run
-FLOORS = {"daemon_fsm": 30, "daemon_gr": 4, "daemon_peer_tx": 7, "table_cmp": 20}
-TWIN_FLOORS = {"daemon_fsm": 8, "daemon_gr": 3, "daemon_peer_tx": 2, "table_cmp": 4}
+FLOORS = {"daemon_fsm": 30, "daemon_gr": 4, "daemon_peer_tx": 7, "table_cmp": 20, "packet_validate": 1}
+TWIN_FLOORS = {"daemon_fsm": 8, "daemon_gr": 3, "daemon_peer_tx": 2, "table_cmp": 4, "packet_validate": 1}
 
 PLAN = {
     "C01": {"verus": ["daemon_peer_tx"], "level": "proof"},
+    "C05": {"verus": ["packet_validate"], "kani": ["c05_canonical_flags_table"], "level": "proof"},
+    "C06": {"verus": [], "kani": ["c06_id_alloc_unique", "c06_id_dealloc_exact", "c06_id_alloc_mustfail"], "level": "other",
+            "explanation": "BOUNDED stand-in, not a proof: Kani/CBMC harnesses on the real IdAllocator::{alloc,dealloc} with <= 4 bitmap words (256 live ids per shard), every word over its full 64-bit domain, under the representation invariant 'no trailing zero word': alloc returns the least free id, which no live prefix holds, marks exactly it live and keeps the shard index in bits 31..24; dealloc frees exactly its id and restores the invariant. Only the identifier-uniqueness clause of C06 is addressed; the change-stream fold and the end-of-deferral clause live in Table::{insert,remove,end_deferral,...} (note T) and are not covered."},
     "C07": {"verus": ["daemon_fsm"], "level": "proof"},
     "C08": {"verus": ["daemon_fsm"], "level": "proof"},
     "C10": {"verus": ["daemon_gr"], "level": "proof"},
+    "C16": {"verus": ["daemon_fsm"], "kani": ["c16_ipnet_contains_v4", "c16_ipnet_contains_v6"], "level": "proof"},
     "C02": {"verus": ["table_cmp"], "level": "proof"},
     "C03": {"verus": [], "level": "proof",
             "kani": ["bfd_decode_total_and_exact", "bfd_decode_mustfail", "rtr_frame_length_contract",
